@@ -298,6 +298,31 @@ def _small_circuit() -> Circuit:
     return c
 
 
+def special_circuits() -> list[tuple[str, Circuit]]:
+    """Block operations that carry parameters of their own: one
+    parameterised CircuitGate object used by several operations, and a block
+    inside a block, each with parameters different from the stored ones."""
+    layer = Circuit(2)
+    layer.append_gate(U3Gate(), 0, [0.1, 0.2, 0.3])
+    layer.append_gate(RZGate(), 1, [0.4])
+    layer.append_gate(CNOTGate(), (0, 1))
+    g = CircuitGate(layer)
+    c = Circuit(3)
+    c.append_gate(g, (0, 1), [1.1, 1.2, 1.3, 1.4])
+    c.append_gate(g, (2, 1), [2.1, 2.2, 2.3, 2.4])
+    c.append_gate(g, (0, 1), [3.1, 3.2, 3.3, 3.4])
+    outer = Circuit(2)
+    outer.append_gate(g, (1, 0), [0.5, 0.6, 0.7, 0.8])
+    outer.append_gate(RZGate(), 0, [0.9])
+    g2 = CircuitGate(outer)
+    d = Circuit(3)
+    d.append_gate(g2, (2, 0), [-0.5, -0.6, -0.7, -0.8, -0.9])
+    d.append_gate(g, (0, 1), [4.1, 4.2, 4.3, 4.4])
+    d.append_gate(g2, (1, 2), [5.5, 5.6, 5.7, 5.8, 5.9])
+    return [('shared parameterised block gate', c),
+            ('block inside a block, own parameters', d)]
+
+
 def check(tier: str, seed: int) -> dict[str, dict[str, Any]]:
     res: dict[str, dict[str, Any]] = {}
 
@@ -316,8 +341,10 @@ def check(tier: str, seed: int) -> dict[str, dict[str, Any]]:
     # circuits
     scopes = [((2, 2), 2), ((2, 3), 2)] if tier == 'quick' else \
         [((2, 2), 2), ((2, 2, 2), 2), ((2, 3), 2)]
-    for radixes, mc in scopes:
-        for desc, c0 in C.all_circuits(radixes, mc):
+    import itertools as _it
+    for radixes, mc in scopes + [(None, 0)]:
+        for desc, c0 in (C.all_circuits(radixes, mc) if radixes is not None
+                         else special_circuits()):
             for how, c in history_variants(c0):
                 scen = '%s %s' % (desc, how)
                 s = st('Circuit.pickle')
